@@ -56,6 +56,29 @@ def _is_name_of(CE, nf, what):
 NAME_PLUMBING = {"ok_or", "ok_or_else", "to_string", "to_owned", "into", "from", "as_str", "unwrap_or_default", "map_err", "clone", "Some", "Ok", "as_ref", "as_deref"}
 
 
+def _success_value(n):
+    """what `x?` / the `Ok` payload is of a value written as `match v { Some(x) => Ok(x), None => Err(..) }` (a helper that turns an
+    absent value into an error): the x of the succeeding arm — the failing arm ends the function and is no part of the value"""
+    if not isinstance(n, tuple):
+        return n
+    if n[0] == "payload" and n[1] in ("Ok", "Some") and len(n) == 3:
+        inner = _success_value(n[2])
+        if isinstance(inner, tuple) and inner[0] == "call" and str(inner[1]).rsplit("::", 1)[-1] == n[1] and len(inner[2]) == 1:
+            return inner[2][0]
+        if isinstance(inner, tuple) and inner[0] == "ifelse" and len(inner) == 4:
+            def arm(a):
+                if isinstance(a, tuple) and a[0] == "call" and len(a[2]) == 1 and str(a[1]).rsplit("::", 1)[-1] == n[1]:
+                    return ("ok", a[2][0])
+                if isinstance(a, tuple) and ((a[0] == "call" and str(a[1]).rsplit("::", 1)[-1] in ("Err",)) or (a[0] == "const" and str(a[1]).endswith("None"))):
+                    return ("fail", None)
+                return ("other", None)
+            a1, a2 = arm(inner[2]), arm(inner[3])
+            if {a1[0], a2[0]} == {"ok", "fail"}:
+                return _success_value(a1[1] if a1[0] == "ok" else a2[1])
+        return ("payload", n[1], inner)
+    return n
+
+
 def rule_absent_is_default(ck, F, CE, rule="R6"):
     """Which operations get envelopes may depend on `style` only in a way that takes an absent attribute for its default: a test
     that compares what was read (None when absent) with the default value itself treats `no style` and `style="document"` differently,
@@ -263,15 +286,21 @@ def run(ck, F):
     # the client type is named after the service: PascalCase of the service's `name` attribute, whatever else the document holds (a
     # name that is changed when some other component happens to be called alike is not the service's name any more)
     stored = next((s_[3] for s_ in og.field_summaries(F, "service::SoapService") if not s_[0].endswith("tests")), {})
-    svc_types = [e for e in X.events.get(SERVICE, []) if e.kind == "emit" and re.match(r"^\s*(pub struct|impl) \{\} \{", e.skeleton()) and e.holes()]
+    svc_types = [e for e in X.events.get(SERVICE, []) if e.kind == "emit" and re.match(r"^\s*(pub struct|impl) \w*\{\}\w* \{", e.skeleton()) and e.holes()]
     for e in svc_types:
         what = "struct" if "struct" in e.skeleton() else "impl"
+        glued = re.match(r"^\s*(?:pub struct|impl) (\w*)\{\}(\w*) \{", e.skeleton())
+        if glued and (glued.group(1) or glued.group(2)):
+            ck.violation("R4", f"service:type-name:{what}", e.site,
+                         f"the client {what} is named `{glued.group(1)}<name>{glued.group(2)}`: the name of the service with something added, not the "
+                         f"PascalCase form of the service's `name` attribute", fn="service")
+            continue
         h0 = CE.expand(e.holes()[0][0])
         names, root = og.spine(h0)
         full = h0
         if root[0] == "field" and root[1] == ("param", "self") and root[2] in stored:
             # a member of the service value stands for what the reader stored in it
-            full = CE.expand(stored[root[2]])
+            full = _success_value(CE.expand(stored[root[2]]))
             names2, root = og.spine(full)
             names = names + names2
         chain = [x for x in names if x in og.SANITISERS]
@@ -314,7 +343,9 @@ def run(ck, F):
             ck.undecided("R4", f"{short}:fn-name", "-", f"{short}: no method signature template found in the document's grammar", fn=short)
     # ---- R5
     evs = [e for e in X.events.get(OP_EMITTERS[0], []) if e.kind == "emit"]
-    body = [e for e in evs if not re.match(r"^\s*pub async fn", e.skeleton()) and e.skeleton().strip() not in ("}", "")]
+    # (comment lines and attributes in front of the signature are not statements; that schema text cannot leave a comment is C14's)
+    body = [e for e in evs if not re.match(r"^\s*pub async fn", e.skeleton()) and e.skeleton().strip() not in ("}", "")
+            and not e.skeleton().strip().startswith(("//", "#[")) ]
     cred = [e for e in body if re.match(r"^let credentials = self\.credentials\.as_ref\(\)\.map\(\|\(u, p\)\| \(u\.as_str\(\), p\.as_str\(\)\)\);$", e.skeleton().strip())]
     fwd, other = [], []
     for e in body:
